@@ -3,7 +3,7 @@
 Alphabet: every core table of n rows (spectrum in {1,2,3}, peptide in {T_a,T_b,D_a,D_b}) up to renaming,
 listed in descending score order, plus a fixed ballast (so every level keeps both classes);
 configuration deviations: de-duplication, roll-up, decoy output, 1..3 collections, prefixes, text/Parquet,
-extra level columns, file row order; a tie family (two equal scores) with any tied winner accepted.
+extra level columns, file row order, a four-column spectrum key told apart by one column; a tie family (two equal scores) with any tied winner accepted.
 Oracle: selection reference (mc/ref/competition.py) + C01 reference q-values on the retained rows.
 """
 
@@ -40,7 +40,7 @@ ASSUMPTIONS = [
 PEPS = ["TA", "TB", "DA", "DB"]
 LEVEL_FILES = {"Peptide": "peptides", "ModifiedPeptide": "modifiedpeptides", "Precursor": "precursors",
                "PeptideGroup": "peptidegroups"}
-DEFAULT = dict(dedup=True, rollup=True, decoys=True, ncoll=1, prefixes=False, fmt="pin", extras=False, order="desc", chunk=None, shift=None)
+DEFAULT = dict(dedup=True, rollup=True, decoys=True, ncoll=1, prefixes=False, fmt="pin", extras=False, order="desc", chunk=None, shift=None, key=None)
 DEVIATIONS = [("dedup", False), ("rollup", False), ("decoys", False), ("ncoll", 2), ("ncoll", 3), ("prefixes", True),
               ("fmt", "parquet"), ("extras", True), ("extras", "same"), ("order", "asc"), ("order", "rot"),
               ("chunk", 2), ("chunk", 3)]
@@ -104,7 +104,7 @@ def level_key(extras):
     return {"Peptide": "peptide", "ModifiedPeptide": "mod", "Precursor": "prec", "PeptideGroup": "group"}
 
 
-def to_frame(rows, extras, order):
+def to_frame(rows, extras, order, key=None):
     idx = list(range(len(rows)))
     if order == "asc":
         idx = idx[::-1]
@@ -120,6 +120,14 @@ def to_frame(rows, extras, order):
         "feat": [r["score"] * 0.5 for r in rs],
         "Peptide": [r["peptide"] for r in rs],
     }
+    if key is not None:
+        # four-column spectrum key (FileName, ScanNr, ret_time, ExpMass) whose column number `key` alone tells the
+        # spectra apart: distinct spectra agree on every other key column
+        d["FileName"] = [f"run{r['scan']}.mzML" if key == 0 else "run.mzML" for r in rs]
+        d["ScanNr"] = [r["scan"] if key == 1 else 1 for r in rs]
+        d["ret_time"] = [10.25 + r["scan"] if key == 2 else 10.25 for r in rs]
+        d["ExpMass"] = [100.5 + r["scan"] if key == 3 else 100.5 for r in rs]
+        d = {k: d[k] for k in ["SpecId", "Label", "FileName", "ScanNr", "ret_time", "ExpMass", "feat", "Peptide"]}
     if extras:
         lk = level_key(extras)
         d["ModifiedPeptide"] = [r[lk["ModifiedPeptide"]] for r in rs]
@@ -247,7 +255,7 @@ def run_case(case, acc, with_rollup_tool=False):
         for c in range(cfg["ncoll"]):
             ccore = core[c:] + core[:c]
             rows = build_rows(ccore, c, tie, cfg.get("shift"))
-            df, s = to_frame(rows, cfg["extras"], cfg["order"])
+            df, s = to_frame(rows, cfg["extras"], cfg["order"], cfg.get("key"))
             dsets.append(make_dataset(df, work / f"coll{c}{ext}", features=["feat"]))
             scores.append(s)
             colls.append(rows)
@@ -378,7 +386,7 @@ def make_cases(ctx):
         tie_n = [2, 3]
     else:
         plan = [(1, 3), (2, 3), (3, 2), (4, 1), (5, 0)]
-        extra4 = [{"dedup": False}, {"chunk": 2}, {"chunk": 3, "extras": "same", "fmt": "parquet"}, {"chunk": 2, "shift": "zero"}]
+        extra4 = [{"dedup": False}, {"chunk": 2}, {"chunk": 3, "extras": "same", "fmt": "parquet"}, {"chunk": 2, "shift": "zero"}, {"key": 3}, {"key": 0}]
         tie_n = [2, 3, 4]
     nmax = plan[-1][0]
     for n, maxdev in plan:
@@ -387,6 +395,8 @@ def make_cases(ctx):
             cfgs = [{}] + extra4
         elif maxdev == 1:  # the chunked merge with an exact zero among negative scores needs two deviations
             cfgs = cfgs + [{"chunk": 2, "shift": "zero"}]
+        if maxdev >= 1:  # spectra told apart by one column of a four-column key only
+            cfgs = cfgs + [{"key": 0}, {"key": 2}, {"key": 3}, {"key": 3, "chunk": 2}]
         for core in canonical_cores(n):
             for cfg in cfgs:
                 cases.append({"core": [list(x) for x in core], "config": cfg})
